@@ -3133,6 +3133,16 @@ func (c *pipelineConnClient) writer(conn net.Conn, stopCh <-chan struct{}, chs *
 		if !w.deadline.IsZero() && time.Since(w.deadline) >= 0 {
 			w.err = ErrTimeout
 			w.done <- struct{}{}
+			if flushTimerCh == nil && len(chW) == 0 && bw.Buffered() > 0 {
+				// The skipped request was the one expected to trigger the flush
+				// of the requests written before it.
+				if maxBatchDelay > 0 {
+					flushTimer.Reset(maxBatchDelay)
+					flushTimerCh = flushTimer.C
+				} else {
+					flushTimerCh = instantTimerCh
+				}
+			}
 			continue
 		}
 
